@@ -467,6 +467,38 @@ fn eval(a: &[String]) -> String {
       use tyme4rs::tyme::sixtycycle::EarthBranch;
       EarthBranch::from_index(v[0] as isize).get_hide_heaven_stems().iter().map(|h| h.get_heaven_stem().get_index().to_string()).collect::<Vec<String>>().join(" ")
     }
+    "fortune_scan" => {
+      // decade / yearly fortunes of births on every 3rd day of 2000-2001 (both genders): ages, years and pillars against the rule
+      use tyme4rs::tyme::eightchar::ChildLimit;
+      use tyme4rs::tyme::enums::Gender;
+      let mut out = "NONE".to_string();
+      let mut day = SolarDay::from_ymd(2000, 1, 1);
+      'scan: for _ in 0..240 {
+        for g in [Gender::MAN, Gender::WOMAN] {
+          let b = SolarTime::from_ymd_hms(day.get_year(), day.get_month(), day.get_day(), 10, 0, 0);
+          let c = ChildLimit::from_solar_time(b, g);
+          let ey = c.get_end_time().get_year() as i64; let sy = b.get_year() as i64;
+          let virt = ey - sy + 1;
+          let sgn: i64 = if c.is_forward() { 1 } else { -1 };
+          let mp = c.get_eight_char().get_month().get_index() as i64; let hp = c.get_eight_char().get_hour().get_index() as i64;
+          if c.get_decade_fortune().get_sixty_cycle().get_index() as i64 != mp || c.get_decade_fortune().get_start_age() as i64 != virt - 10 {
+            out = format!("birth {}-{}-{} 10:00 man={}: the decade of the child limit itself", day.get_year(), day.get_month(), day.get_day(), g == Gender::MAN); break 'scan;
+          }
+          for idx in [0isize, 1, 7] {
+            let f = c.get_start_fortune().next(idx);
+            let d = c.get_start_decade_fortune().next(idx);
+            let bad = f.get_age() as i64 != virt + idx as i64 || f.get_sixty_cycle().get_index() as i64 != (hp + sgn * (virt + idx as i64)).rem_euclid(60)
+              || f.get_sixty_cycle_year().get_year() as i64 != ey + idx as i64
+              || d.get_start_age() as i64 != virt + 10 * idx as i64 || d.get_end_age() as i64 != virt + 10 * idx as i64 + 9
+              || d.get_sixty_cycle().get_index() as i64 != (mp + sgn * (idx as i64 + 1)).rem_euclid(60)
+              || d.get_start_age() != d.get_start_fortune().get_age();
+            if bad { out = format!("birth {}-{}-{} 10:00 man={} index {}", day.get_year(), day.get_month(), day.get_day(), g == Gender::MAN, idx); break 'scan; }
+          }
+        }
+        day = day.next(3);
+      }
+      out
+    }
     "six_star" => {
       // month number, leap flag, day -> six star index on a real lunar day with these
       use tyme4rs::tyme::lunar::{LunarDay, LunarYear};
